@@ -223,6 +223,27 @@ func RunOne(t *testing.T, p *Prop, sc Scenario, tier string, keepTrace int) (res
 	sched := kernel.NewScheduler(mode, c.SchedSeed, c.Choices)
 	env := &Env{Res: res, Tier: tier}
 	defer kernel.Uninstall()
+	if p.Direct {
+		// mode OS: real kernel objects (pty, child process, loopback TCP) cannot live in a
+		// bubble; no fake clock, no controller, hooks stay no-ops
+		k := kernel.New(sched)
+		kernel.Uninstall()
+		k.Free = true
+		env.K = k
+		func() {
+			defer func() {
+				if r := recover(); r != nil {
+					res.HarnessError = fmt.Sprintf("panic in harness: %v\n%s", r, debug.Stack())
+				}
+			}()
+			p.Run(env, sc)
+		}()
+		for _, f := range env.AtEnd {
+			f()
+		}
+
+		return res
+	}
 	func() {
 		defer func() {
 			if r := recover(); r != nil {
